@@ -58,16 +58,16 @@ def gen_case(rng, sim, nmax=12, buggify=None, horizon=None, allow_rho=True, dire
     case = {"sim": sim}
     if sim == "Gillespie_simple_contagion":
         c = contagion.gen_simple_case(rng, nmax=min(nmax, 8))
-        case.update({k: c[k] for k in ("graph", "statuses", "spont", "induced", "IC", "ret", "ic_type", "template")})
+        case.update({k: c[k] for k in ("graph", "statuses", "spont", "induced", "IC", "ret", "ic_type", "template", "ic_extra")})
     elif sim == "Gillespie_complex_contagion":
         # (the `lazy` model, whose chooser may answer the current status, belongs to C15 only: an
         # event that changes nothing is at odds with C04's "exactly one node makes one move" wording,
         # and which of the two a chooser may do is not stated anywhere)
         c = contagion.gen_complex_case(rng, model=rng.choice([m for m in contagion.COMPLEX_MODELS if m != "lazy"]))
-        case.update({k: c[k] for k in ("graph", "model", "params", "IC", "ret", "infl_kind")})
+        case.update({k: c[k] for k in ("graph", "model", "params", "IC", "ret", "infl_kind", "ic_extra")})
     else:
         spec = cases.gen_graph(rng, 1, nmax, directed=bool(directed), label=label, edge_w=ew, node_w=nw,
-                               selfloops=selfloops)
+                               selfloops=selfloops if selfloops else 0.12)
         case["graph"] = spec
         case["ew"] = bool(ew)
         case["nw"] = bool(nw)
@@ -144,6 +144,8 @@ class Tables(object):
         # speaks of every listed delay), flagged by sis_unfiltered.
         self.unfiltered = bool(case.get("sis_unfiltered"))
         self.age_rule = bool(case.get("age_rule"))
+        # SIS tables on a half-unit grid: attempts coincide with recoveries and with each other
+        self.ties = bool(case.get("sis_ties"))
         # extra positional arguments the simulator must forward to each user function
         # (trans_time_args / rec_time_args / trans_and_rec_time_args / args): None = not used
         self.expect = {}
@@ -194,6 +196,8 @@ class Tables(object):
 
     # SIS: k-th infection of a node
     def sis_duration_k(self, i, k):
+        if self.ties:
+            return keyed_choice((0.5, 1.0, 1.5, 2.0), self.seed, "sr", i, k)
         # distinct event times: irrational-ish offsets keyed by (i,k)
         return 0.3 + 2.5 * keyed(self.seed, "sr", i, k)
 
@@ -201,7 +205,10 @@ class Tables(object):
         m = int(keyed(self.seed, "sn", i, j, k) * 5)  # 0..4 attempts
         acc, out = 0.0, []
         for a in range(m):
-            acc += 0.05 + 1.2 * keyed(self.seed, "sd", i, j, k, a)
+            if self.ties:
+                acc += keyed_choice((0.5, 1.0), self.seed, "sd", i, j, k, a)
+            else:
+                acc += 0.05 + 1.2 * keyed(self.seed, "sd", i, j, k, a)
             out.append(acc)
         return out
 
@@ -304,6 +311,9 @@ def call(case, full, sim=None, tables=None, container="list"):
         if case.get("tmax") is not None:
             kw["tmax"] = case["tmax"]
         IC = {lab: s for lab, s in zip(ad.labels, ad.init_state)}
+        if case.get("ic_extra"):
+            IC[("not", "a", "node")] = ad.init_state[0]
+            IC["__outside__"] = ad.init_state[-1]
         res = run_under(sim, fn, ad.G, ad.rate, ad.choose, ad.infl, IC, list(case["ret"]), **kw)
         return res, ad.G, ad.labels, None
     G, labels = cases.build_graph(case["graph"])
